@@ -126,6 +126,68 @@ SHEETS = [
     ("run", "bad-element-name", deep('<xsl:element name="1bad"><q/></xsl:element>')),
 ]
 
+# ---- failures INSIDE a facility that keeps internal caches (appended: earlier indices are used by corpus histories) ----
+# G is true for every node except the ones carrying fail="1", for which it raises a run-time error
+# (or short-circuits): the facility has already worked on several nodes when the error comes.
+G = "(not(@fail) or v:nofn())"
+VX = V + ' exclude-result-prefixes="v"'
+SHEETS += [
+    ("ok", "sort-text-foreach", '''<xsl:stylesheet %s><xsl:output method="text"/>
+ <xsl:template match="/"><xsl:for-each select="//item"><xsl:sort select="@id"/><xsl:value-of select="@id"/>,</xsl:for-each>|<xsl:for-each select="//item"><xsl:sort select="."/><xsl:value-of select="."/>,</xsl:for-each></xsl:template>
+</xsl:stylesheet>''' % X),
+    ("ok", "sort-number-apply", '''<xsl:stylesheet %s><xsl:output method="text"/>
+ <xsl:template match="/"><xsl:apply-templates select="//item"><xsl:sort select="@w" data-type="number" order="descending"/></xsl:apply-templates>|<xsl:apply-templates select="//item"><xsl:sort select="@id" data-type="number"/></xsl:apply-templates></xsl:template>
+ <xsl:template match="item"><xsl:value-of select="concat(@id,':',@w)"/>,</xsl:template>
+</xsl:stylesheet>''' % X),
+    ("ok", "sort-lang", '''<xsl:stylesheet %s><xsl:output method="text"/>
+ <xsl:template match="/"><xsl:for-each select="//item"><xsl:sort select="." lang="sv" case-order="upper-first"/><xsl:value-of select="."/>,</xsl:for-each>|<xsl:for-each select="//item"><xsl:sort select="." lang="en" case-order="lower-first"/><xsl:value-of select="."/>,</xsl:for-each></xsl:template>
+</xsl:stylesheet>''' % X),
+    ("run", "error-in-sort-key-text", '''<xsl:stylesheet %s %s><xsl:output method="text"/>
+ <xsl:template match="/"><xsl:for-each select="//item"><xsl:sort select="concat(@id, string(%s))"/><xsl:value-of select="@id"/>,</xsl:for-each></xsl:template>
+</xsl:stylesheet>''' % (X, VX, G)),
+    ("run", "error-in-sort-key-number", '''<xsl:stylesheet %s %s><xsl:output method="text"/>
+ <xsl:template match="/"><xsl:apply-templates select="//item"><xsl:sort select="@w * number(%s)" data-type="number"/></xsl:apply-templates></xsl:template>
+ <xsl:template match="item"><xsl:value-of select="@w"/>,</xsl:template>
+</xsl:stylesheet>''' % (X, VX, G)),
+    ("run", "error-in-sort-key-second", '''<xsl:stylesheet %s %s><xsl:output method="text"/>
+ <xsl:template match="/"><xsl:for-each select="//item"><xsl:sort select="@g"/><xsl:sort select="@w * number(%s)" data-type="number" order="descending"/><xsl:value-of select="concat(@g,@w)"/>,</xsl:for-each></xsl:template>
+</xsl:stylesheet>''' % (X, VX, G)),
+    ("run", "error-in-sort-key-lang", '''<xsl:stylesheet %s %s><xsl:output method="text"/>
+ <xsl:template match="/"><xsl:for-each select="//item"><xsl:sort select="concat(., string(%s))" lang="sv" case-order="upper-first"/><xsl:value-of select="."/>,</xsl:for-each></xsl:template>
+</xsl:stylesheet>''' % (X, VX, G)),
+    ("run", "error-in-number-count", '''<xsl:stylesheet %s %s><xsl:output method="text"/>
+ <xsl:template match="/"><xsl:apply-templates select="//item"/></xsl:template>
+ <xsl:template match="item"><xsl:number level="any" count="item[%s]"/>.<xsl:number level="multiple" count="*[%s]" format="1.1"/>;</xsl:template>
+</xsl:stylesheet>''' % (X, VX, G, G)),
+    ("run", "error-in-key-build", '''<xsl:stylesheet %s %s><xsl:output method="text"/>
+ <xsl:key name="k2" match="item" use="concat(@g, string(%s))"/>
+ <xsl:template match="/"><xsl:for-each select="//item[1]"><xsl:value-of select="count(key('k2', concat(@g, 'true')))"/></xsl:for-each>;<xsl:value-of select="count(key('k2', 'atrue'))"/></xsl:template>
+</xsl:stylesheet>''' % (X, VX, G)),
+    ("run", "error-in-format-number", '''<xsl:stylesheet %s %s><xsl:output method="text"/>
+ <xsl:template match="/"><xsl:for-each select="//item"><xsl:value-of select="format-number(@w * 1234.5 * number(%s), '#,##0.00')"/>;</xsl:for-each></xsl:template>
+</xsl:stylesheet>''' % (X, VX, G)),
+    ("ok", "format-number-custom", '''<xsl:stylesheet %s><xsl:output method="text"/>
+ <xsl:decimal-format decimal-separator="," grouping-separator="."/>
+ <xsl:template match="/"><xsl:for-each select="//item"><xsl:value-of select="format-number(@id * 1234.5, '#.##0,00')"/>;</xsl:for-each></xsl:template>
+</xsl:stylesheet>''' % X),
+]
+
+# which sheets use the same facility as an aborting sheet (a failure is followed by one of them)
+FACILITY = {
+    "sort": ["sort-text-foreach", "sort-number-apply", "sort-lang", "sort+modes", "error-in-sort-key-text", "error-in-sort-key-number", "error-in-sort-key-second", "rtf+nodeset"],
+    "number": ["number", "error-in-number-count", "deep-no-boom"],
+    "key": ["keys+modes", "document", "error-in-key-build", "deep-no-boom"],
+    "format-number": ["format-number-custom", "error-in-format-number"],
+}
+
+
+def facility_of(tag):
+    for f in ("sort", "number-count", "key", "format-number"):
+        if f in tag:
+            return "number" if f == "number-count" else f
+    return None
+
+
 SOURCES = [
     ("ok", '<doc><item id="1" g="a">one</item><item id="2" g="b" boom="1">two</item><item id="3" g="a">three</item></doc>'),
     ("ok", '<doc><sec><item id="5" g="x"><item id="6" g="x" boom="1"><item id="7" g="y"/></item></item><item id="8" g="y">t</item></sec><item id="9" g="x" boom="1"/></doc>'),
@@ -133,7 +195,12 @@ SOURCES = [
     ("ok", '<doc/>'),
     ("bad", '<doc><item></doc>'),
     ("bad", ''),
+    # the LAST item makes the guarded expressions of the facility sheets fail, after the others were processed
+    ("ok", '<doc><item id="3" g="b" w="10">c</item><item id="1" g="a" w="9">B</item><item id="2" g="b" w="100">a</item><item id="4" g="a" w="5" fail="1">b</item></doc>'),
+    ("ok", '<doc><sec><item id="20" g="x" w="3">q</item><item id="7" g="y" w="20">Q</item></sec><item id="12" g="x" w="1">p</item><item id="9" g="y" w="11">r</item><item id="1" g="z" w="2" fail="1">s</item></doc>'),
+    ("ok", '<doc><item id="1" g="a" w="100">a</item><item id="2" g="b" w="10">b</item><item id="3" g="a" w="9">C</item><item id="4" g="b" w="5">d</item></doc>'),
 ]
+FAIL_SOURCES = [i for i, s_ in enumerate(SOURCES) if 'fail="1"' in s_[1]]
 
 FILES = {"d2.xml": '<d><e k="1">one</e><e k="2">two</e><e k="1">uno</e></d>'}
 
